@@ -1250,3 +1250,18 @@ Proof.
     f_equal. set_solver.
   - rewrite lookup_alter_ne, !lookup_insert_ne by done. done.
 Qed.
+
+(* statements used verbatim by Properties/C11.v *)
+Lemma flip_step (g g' : circuit) n i j (v : val) :
+  g !! ("c1_" ++ n) = Some i → g !! ("c0_" ++ n) = Some j → n_ty j ≠ BbIn → n_ty j ≠ BbOut →
+  flip_node g n = Ok g' →
+  consistent g' v ↔ consistent (delete ("c1_" ++ n) g) v ∧ v ("c1_" ++ n) = negb (v ("c0_" ++ n)).
+Proof.
+  intros Hi Hj H1 H2. rewrite (flip_node_closed_form g n i j Hi Hj H1 H2). intros [= <-].
+  apply flip_node_consistent.
+Qed.
+Lemma copies_values c n (E : gset string) T : closed c → acyclic c → inputs_only c → n ∈ dom c → sens_shape c n E T →
+  ∀ v, consistent T v → ∀ x, x ∈ dom c → v ("c0_" ++ x) = evalc c v x ∧ v ("c1_" ++ x) = inverted c n v x.
+Proof. intros ???? Hsh v Hv x Hx. split; [by eapply c0_values|by eapply c1_values]. Qed.
+Lemma width_arg m w k c : clog2 m = Ok w → k ≤ m → c ≤ m → matches (int_to_bin_le k w) c → c = k ∨ (k = 0 ∧ c = m).
+Proof. intros (_ & H & _)%clog2_spec. by apply matches_enc. Qed.
